@@ -129,6 +129,12 @@ loop:
 			}
 			deploymentCounter.WithLabelValues("reserve-hostnames", "success").Inc()
 			defer dm.hostnameService.ReleaseHostnames(allHostnames)
+			if dm.state == dsTeardownPending {
+				// teardown was requested while the hostnames were being reserved:
+				// never deploy after that, go straight to teardown
+				runch = dm.startTeardown()
+				break
+			}
 			runch = dm.startDeploy()
 
 		case shutdownErr = <-dm.lc.ShutdownRequest():
